@@ -151,6 +151,11 @@ def make_weight(w, wkind):
     return np.float32(w)
   if wkind == 'jax32':
     return jnp.asarray(w, dtype=jnp.float32)
+  if wkind == 'npu8':
+    # counts held in a narrow integer dtype: each fits, their total need not
+    return np.uint8(w)
+  if wkind == 'npi16':
+    return np.int16(w)
   if wkind == 'np0d':
     # a writable 0-d numpy array (e.g. np.array(num_examples)): unlike numpy
     # scalars it can be modified in place
@@ -290,7 +295,7 @@ def mean_reference(vals64, w64):
   return acc / total, s / total, total
 
 
-def check_mean_values(prefix, in_np, w64, out_leaves):
+def check_mean_values(prefix, in_np, w64, out_leaves, in_f16=None):
   """Returns the per-leaf tolerance arrays (None for zero total weight)."""
   n = len(in_np)
   total = math.fsum(w64)
@@ -312,6 +317,11 @@ def check_mean_values(prefix, in_np, w64, out_leaves):
       continue
     ref, s, _ = mean_reference(vals, w64)
     u, tiny = out_consts(o)
+    if in_f16 is not None and in_f16[j]:
+      # a float16 input leaf: products and partial sums may be rounded to
+      # float16 even when the final division promotes the result to float32
+      # (e.g. integer-typed numpy weights)
+      u, tiny = U16, TINY16
     tol = (2 * n + 8) * u * s + (n + 2) * tiny * max(1.0, 1.0 / total)
     tols.append(tol)
     err = np.abs(o64 - ref)
@@ -387,7 +397,9 @@ def run_mean(case, api):
             f'{pulled} items pulled from an iterator of {n}')
     require(iter_calls == 1, 'one_pass:iterated_twice',
             f'iter() called {iter_calls} times')
-  tols = check_mean_values(prefix, in_np, w64, out_leaves)
+  in_f16 = [any(str(np.asarray(leaves[j]).dtype) == 'float16' for leaves in in_leaves)
+            for j in range(len(in_leaves[0]))]
+  tols = check_mean_values(prefix, in_np, w64, out_leaves, in_f16)
   check_inputs_unharmed(prefix, in_leaves, snaps, out_leaves, weights, wsnaps)
 
   # Order independence: the same clients in a different order, as a list.
@@ -400,7 +412,7 @@ def run_mean(case, api):
     require(def2 == treedef, f'{prefix}:structure', f'{def2} vs {treedef}')
     check_outputs_alive(prefix, out2)
     check_mean_values(prefix, [in_np[i] for i in perm], [w64[i] for i in perm],
-                      out2)
+                      out2, in_f16)
     for j, (a, b, tol) in enumerate(zip(out_leaves, out2, tols)):
       a64, b64 = to64(a), to64(b)
       bound = 0.0 if tol is None else 2 * tol
@@ -492,7 +504,7 @@ def run_sum(case):
 def clip_bound(case, norm):
   b = case['bound']
   if 'abs' in b:
-    return float(b['abs'])
+    return float(b['abs'])     # may be the string 'inf': no clipping at all
   if norm == 0:
     return float(b['rel'])
   return float(np.float32(b['rel'] * norm))
@@ -682,7 +694,13 @@ def draw_clients_values(draw, spec, n, elems):
 
 
 def draw_weights(draw, n, wkind, wide):
-  if wkind == 'int':
+  if wkind == 'npu8':
+    pos = st.one_of(st.integers(1, 255), st.sampled_from([255, 200, 128, 100, 1]))
+    zero = 0
+  elif wkind == 'npi16':
+    pos = st.one_of(st.integers(1, 32767), st.sampled_from([32767, 30000, 16384, 1]))
+    zero = 0
+  elif wkind == 'int':
     pos = st.one_of(st.integers(1, 1024), st.integers(1, 12),
                     st.sampled_from([1, 2, 1024]))
     zero = 0
@@ -747,10 +765,16 @@ def mixed_dtypes(draw, spec, clients):
 def mean_case(draw, tier, api):
   spec = draw(tree_spec(tier))
   n = draw_n(draw, tier)
-  wkind = draw(st.sampled_from(['float', 'float', 'int', 'np32', 'jax32', 'np0d']))
+  wkind = draw(st.sampled_from(['float', 'float', 'int', 'np32', 'jax32', 'np0d', 'npu8', 'npi16']))
   has_f16 = any(l['dtype'] == 'f16' for l in spec_leaves(spec))
-  weights = draw_weights(draw, n, wkind, wide=(not has_f16 and wkind != 'int'))
-  vals = draw_clients_values(draw, spec, n, MEAN_ELEMS)
+  if has_f16 and wkind == 'npi16':
+    wkind = 'npu8'   # float16 trees: weights stay <= 1024 (stated bound)
+  weights = draw_weights(draw, n, wkind, wide=(not has_f16 and wkind not in ('int', 'npu8', 'npi16')))
+  elems = MEAN_ELEMS
+  if wkind == 'npi16':
+    # int32 leaves are weighted in int32: keep sum |w x| below 2^31 (stated bound)
+    elems = dict(MEAN_ELEMS, i32=i32_elements(4096))
+  vals = draw_clients_values(draw, spec, n, elems)
   case = {
       'tree': spec,
       'clients': [{'w': w, 'leaves': v} for w, v in zip(weights, vals)],
@@ -836,8 +860,11 @@ def clip_case(draw, tier):
       st.fixed_dictionaries({'rel': st.sampled_from(ratios)}),
       st.fixed_dictionaries({'rel': st.sampled_from(ratios)}),
       st.fixed_dictionaries({'abs': abs_b})))
-  if draw(st.integers(0, 15)) == 5:
+  pick = draw(st.integers(0, 15))
+  if pick == 5:
     bound = {'abs': 0.0}   # degenerate but valid: everything is clipped to zero
+  elif pick == 6:
+    bound = {'abs': 'inf'}  # an infinite bound clips nothing
   return {'tree': spec, 'leaves': leaves, 'bound': bound,
           'leafkind': draw(st.sampled_from(['jax', 'jax', 'jax', 'numpy']))}
 
@@ -929,6 +956,8 @@ def clip_labels(case):
     out.append('zero_tree')
   if case['bound'].get('abs') == 0:
     out.append('bound_zero')
+  if case['bound'].get('abs') == 'inf':
+    out.append('bound_infinite')
   return out
 
 
